@@ -29,7 +29,7 @@
 
 use crate::engine::{fixtures, CaseResult, Ctx, Fail, Property, Rec};
 use crate::fontgen::cff::{
-    build_cff, build_cff2, build_otf, Cff2Model, CffKind, CffModel, CharsetModel, PrivateModel, VarStoreModel,
+    build_cff, build_cff2, build_cff2_with, build_cff_with, build_otf, Cff2Model, CffKind, CffLayout, CffModel, CharsetModel, PrivateModel, VarStoreModel,
 };
 use crate::fontgen::sfnt::find_table;
 use crate::fontgen::type2::{
@@ -354,7 +354,14 @@ fn has_hv_over_48(toks: &[Tok]) -> bool {
     false
 }
 
+/// Build the font of a case in the canonical container layout.
 pub fn build(c: &Case) -> Built {
+    build_with(c, &CffLayout::default())
+}
+
+/// Build the font of a case with a non-canonical (but legal) container layout: same glyph
+/// programs, subroutines and models as `build(c)`, different bytes around them.
+pub fn build_with(c: &Case, layout: &CffLayout) -> Built {
     let mut dec = Dec::new(c.seed);
     let grid = grid_of(c);
     let cff2 = c.kind == Kind::Cff2;
@@ -601,7 +608,7 @@ pub fn build(c: &Case) -> Built {
     let charstrings: Vec<Vec<u8>> = glyph_toks.iter().enumerate().map(|(g, t)| ser(t, fd_select[g] as usize)).collect();
 
     let table = match c.kind {
-        Kind::NameKeyed => build_cff(&CffModel {
+        Kind::NameKeyed => build_cff_with(&CffModel {
             name: b"VerifC18".to_vec(),
             strings: Vec::new(),
             global_subrs,
@@ -616,8 +623,8 @@ pub fn build(c: &Case) -> Built {
             min_off_size: c.off_size,
             block_order: c.block_order,
             font_bbox: if dec.chance(1, 2) { Some([-1000, -1000, 3000, 3000]) } else { None },
-        }),
-        Kind::Cid => build_cff(&CffModel {
+        }, layout),
+        Kind::Cid => build_cff_with(&CffModel {
             name: b"VerifC18-CID".to_vec(),
             strings: Vec::new(),
             global_subrs,
@@ -628,8 +635,8 @@ pub fn build(c: &Case) -> Built {
             min_off_size: c.off_size,
             block_order: c.block_order,
             font_bbox: None,
-        }),
-        Kind::Cff2 => build_cff2(&Cff2Model {
+        }, layout),
+        Kind::Cff2 => build_cff2_with(&Cff2Model {
             global_subrs,
             charstrings,
             fds: privates,
@@ -639,8 +646,31 @@ pub fn build(c: &Case) -> Built {
             min_off_size: c.off_size,
             block_order: c.block_order,
             font_matrix: dec.chance(1, 3),
-        }),
+        }, layout),
     };
+    if !layout.is_canonical() {
+        classes.push("layout:non-canonical".into());
+        let mut add = |c: bool, n: &str| {
+            if c {
+                classes.push(format!("layout:{}", n));
+            }
+        };
+        add(layout.header_off_size != 0 && !cff2, "header-offsize");
+        add(layout.index_off_size.iter().any(|v| *v != 0), "index-offsize");
+        add(layout.gaps.iter().any(|v| *v != 0), "gaps");
+        add(layout.detach_local_subrs, "detached-local-subrs");
+        add(layout.top_dict_order != 0 || layout.private_dict_order != 0, "dict-operator-order");
+        add(layout.dict_int_form != 0, "dict-int-forms");
+        add(layout.dict_reals, "dict-reals");
+        add(layout.top_dict_extra && !cff2, "top-dict-extra");
+        add(layout.font_dict_extra && c.kind == Kind::Cid, "font-dict-extra");
+        add(layout.vstore_trailing != 0 && c.variable, "vstore-trailing");
+        add(layout.ivs_gap != 0 && c.variable, "ivs-gap");
+        add(layout.trailing != 0, "trailing-bytes");
+    }
+    if c.header_extra > 0 {
+        classes.push("layout:header-size>min".into());
+    }
     let dump = if std::env::var("VERIF_C18_DUMP").is_ok() {
         let show = |toks: &[Tok]| -> String {
             toks.iter()
@@ -1039,10 +1069,26 @@ pub fn check_built(b: &Built, via_sfnt: bool, rec: &mut Rec) -> CaseResult {
     deferred.finish()
 }
 
-pub fn check_case(c: &Case, rec: &mut Rec) -> CaseResult {
-    let b = build(c);
+/// A case of the random sections: the font case plus the seed of a non-canonical container
+/// layout (`None`: canonical layout).
+pub type LaidOutCase = (Case, Option<u64>);
+
+pub fn layout_of(seed: Option<u64>) -> CffLayout {
+    match seed {
+        Some(s) => CffLayout::draw(&mut Dec::new(s)),
+        None => CffLayout::default(),
+    }
+}
+
+pub fn check_case(cl: &LaidOutCase, rec: &mut Rec) -> CaseResult {
+    let (c, lseed) = cl;
+    let layout = layout_of(*lseed);
+    let b = build_with(c, &layout);
     for l in &b.dump {
         eprintln!("{}", l);
+    }
+    if !b.dump.is_empty() {
+        eprintln!("layout {:?}", layout);
     }
     rec.sample(|| {
         format!(
@@ -1765,9 +1811,10 @@ impl Property for C18 {
     }
     fn run(&self, ctx: &mut Ctx) {
         let n = ctx.cases(160_000, 2_400_000);
-        ctx.section("cff-name-keyed", n * 4 / 10, case_strategy(Kind::NameKeyed), check_case);
-        ctx.section("cff-cid-keyed", n * 3 / 10, case_strategy(Kind::Cid), check_case);
-        ctx.section("cff2", n * 3 / 10, case_strategy(Kind::Cff2), check_case);
+        let laid = |k: Kind| (case_strategy(k), proptest::option::weighted(0.5, any::<u64>()));
+        ctx.section("cff-name-keyed", n * 4 / 10, laid(Kind::NameKeyed), check_case);
+        ctx.section("cff-cid-keyed", n * 3 / 10, laid(Kind::Cid), check_case);
+        ctx.section("cff2", n * 3 / 10, laid(Kind::Cff2), check_case);
         ctx.section("cff-seac", n / 20, seac_strategy(), check_seac);
         ctx.enumerate("nesting-depth", 7 * 9, true, nesting_case);
         ctx.enumerate("bias-bands", (6 * BIAS_SIZES.len() * 5) as u64, true, bias_case);
